@@ -36,32 +36,57 @@ def pathSep (os : OS) : UInt8 :=
 
 def isLetter (c : UInt8) : Bool := (97 ≤ c && c ≤ 122) || (65 ≤ c && c ≤ 90)
 
-/-- VolumeNameLen -/
+def toUpper (c : UInt8) : UInt8 := if 97 ≤ c && c ≤ 122 then c - 32 else c
+
+/-- the loop of pathHasPrefixFold: every byte of the prefix matches (separators are equivalent, letters fold) -/
+def prefixFoldLoop : Bytes → Bytes → Bool
+  | _, [] => true
+  | [], _ :: _ => false
+  | c :: s, q :: pre =>
+    (if isSlash q then isSlash c else toUpper q == toUpper c) && prefixFoldLoop s pre
+
+/-- pathHasPrefixFold: s begins with the prefix and the prefix ends at a separator or at the end of s -/
+def pathHasPrefixFold (s pre : Bytes) : Bool :=
+  if s.length < pre.length then false
+  else prefixFoldLoop s pre && (match s.drop pre.length with | c :: _ => isSlash c | [] => true)
+
+/-- uncLen(path, prefixLen) on the remainder `rest = path[i:]`: the index of the second separator, else len(path) -/
+def uncLenLoop : Bytes → Nat → Nat → Nat
+  | [], i, _ => i
+  | c :: rest, i, count =>
+    if isSlash c then (if count + 1 == 2 then i else uncLenLoop rest (i + 1) (count + 1))
+    else uncLenLoop rest (i + 1) count
+
+def uncLen (p : Bytes) (prefixLen : Nat) : Nat := uncLenLoop (p.drop prefixLen) (min prefixLen p.length) 0
+
+/-- cutPath: what follows the first separator, if any -/
+def cutPathRest : Bytes → Option Bytes
+  | [] => none
+  | c :: rest => if isSlash c then some rest else cutPathRest rest
+
+def pfxDotUNC : Bytes := [BS, BS, DOT, BS, 85, 78, 67]   -- `\\.\UNC`
+def pfxDot : Bytes := [BS, BS, DOT]                       -- `\\.`
+def pfxQM : Bytes := [BS, BS, QM]                         -- `\\?`
+def pfxQQ : Bytes := [BS, QM, QM]                         -- `\??`
+
+/-- VolumeNameLen (the volumeNameLen of Go 1.23's internal/filepathlite/path_windows.go) -/
 def volumeNameLen (os : OS) (p : Bytes) : Nat :=
   match os with
   | .linux => 0
   | .windows =>
     match p with
-    | c0 :: c1 :: rest =>
-      if c1 == COLON && isLetter c0 then 2
-      else if p.length ≥ 5 && isSlash c0 && isSlash c1 then
-        match rest with
-        | c2 :: rest3 =>
-          if isSlash c2 || c2 == DOT then 0 else
-          let i := (rest3.takeWhile (fun c => !isSlash c)).length
-          let n := 3 + i
-          if n < p.length - 1 then
-            let after := rest3.drop (i + 1)
-            match after with
-            | c :: _ =>
-              if isSlash c then 0
-              else if c == DOT then 0
-              else n + 1 + (after.takeWhile (fun c => !isSlash c)).length
-            | [] => 0
-          else 0
-        | [] => 0
+    | [] => 0
+    | c0 :: tl =>
+      if (match tl with | c1 :: _ => c1 == COLON | [] => false) then 2
+      else if !isSlash c0 then 0
+      else if pathHasPrefixFold p pfxDotUNC then uncLen p 8
+      else if pathHasPrefixFold p pfxDot || pathHasPrefixFold p pfxQM || pathHasPrefixFold p pfxQQ then
+        if p.length == 3 then 3
+        else match cutPathRest (p.drop 4) with
+          | none => p.length
+          | some rest => p.length - rest.length - 1
+      else if (match tl with | c1 :: _ => isSlash c1 | [] => false) then uncLen p 2
       else 0
-    | _ => 0
 
 /-- FromSlash -/
 def fromSlash (os : OS) (p : Bytes) : Bytes :=
@@ -192,8 +217,6 @@ def joinWith (s : UInt8) : List Bytes → Bytes
   | [] => []
   | [e] => e
   | e :: es => e ++ s :: joinWith s es
-
-def toUpper (c : UInt8) : UInt8 := if 97 ≤ c && c ≤ 122 then c - 32 else c
 
 /-- pathHasPrefixFold(s, "??") -/
 def hasPrefixFoldQQ (s : Bytes) : Bool :=
